@@ -54,6 +54,11 @@ def gen_body(rng, depth, in_ns=False, allow_draw=False):
             st = {"k": "fn", "body": gen_body(rng, depth - 1, in_ns, allow_draw)}
         elif k == "scan":
             st = {"k": "scan", "n": rng.randint(1, 3), "body": gen_body(rng, depth - 1, in_ns, allow_draw)}
+            # the other parameters of lax.scan: order of iteration and unrolling
+            if rng.random() < 0.3:
+                st["rev"] = True
+            if rng.random() < 0.2:
+                st["unroll"] = 2
         else:
             st = {"k": k, "n": rng.randint(1, 3), "body": gen_body(rng, depth - 1, in_ns, allow_draw and k == "mvmap")}
         out.append(st)
@@ -78,7 +83,7 @@ def _number(body, ctr):
 def shape_key(body):
     def k(st):
         if "body" in st:
-            return "%s%s(%s)" % (st["k"], st.get("name", st.get("n", "")), shape_key(st["body"]))
+            return "%s%s%s(%s)" % (st["k"], st.get("name", st.get("n", "")), "r" if st.get("rev") else "", shape_key(st["body"]))
         if st["k"] == "save":
             return "save:" + "+".join(st["names"])
         if st["k"] == "tag":
@@ -133,7 +138,8 @@ def build(body):
                     c2, o = run(_b, c + x)
                     return c2, o
 
-                acc, o = jax.lax.scan(step, acc, 0.1 * jnp.arange(st["n"], dtype=jnp.float32))
+                acc, o = jax.lax.scan(step, acc, 0.1 * jnp.arange(st["n"], dtype=jnp.float32),
+                                      reverse=bool(st.get("rev")), unroll=st.get("unroll", 1))
                 outs.update(o)
             elif k in ("vmap", "mvmap"):
                 lanes = acc + 0.1 * jnp.arange(st["n"], dtype=jnp.float32)
@@ -239,6 +245,8 @@ def run_case(case):
         probes["ns_around_scan"] = 1
     if _nested(body, "scan", "scan"):
         probes["nested_scan"] = 1
+    if _any(body, lambda st: st["k"] == "scan" and st.get("rev")):
+        probes["reverse_scan"] = 1
     if _nested(body, "scan", "ns"):
         probes["ns_in_scan"] = 1
     if _nested(body, "vmap", "scan") or _nested(body, "mvmap", "scan"):
@@ -282,6 +290,10 @@ def _has(body, kind):
     return any(st["k"] == kind or ("body" in st and _has(st["body"], kind)) for st in body)
 
 
+def _any(body, pred):
+    return any(pred(st) or ("body" in st and _any(st["body"], pred)) for st in body)
+
+
 def _nested(body, outer, inner):
     for st in body:
         if "body" in st:
@@ -308,6 +320,11 @@ def shrink(case):
                     b = copy.deepcopy(body)
                     b[i]["n"] -= 1
                     yield b
+                for kk in ("rev", "unroll"):
+                    if kk in st:
+                        b = copy.deepcopy(body)
+                        del b[i][kk]
+                        yield b
             if st["k"] == "save" and len(st["names"]) > 1:
                 b = copy.deepcopy(body)
                 b[i]["names"] = st["names"][:1]
